@@ -252,7 +252,9 @@ fn from_recipe(v: Proto, r: &Value, request: &[u8], keys: &Keys, old: &Old, midp
         let leaf = if other == Proto::Google { nonce.clone() } else { request.to_vec() };
         batch_with(other, &leaf, 0, 2, rng)
     };
-    let root_of = |name: &str, rng: &mut Rng| -> Vec<u8> { match name { "this" => this_root.clone(), "old" => old_root.clone(), "otherproto" => op_root.clone(), _ => rng.bytes(v.width()) } };
+    let root_of = |name: &str, rng: &mut Rng| -> Vec<u8> { match name { "this" => this_root.clone(), "old" => old_root.clone(), "otherproto" => op_root.clone(),
+        "short" => { let k = [0usize, 4, 16, 32][rng.below(4) as usize].min(this_root.len().saturating_sub(4)); this_root[..k].to_vec() }   // empty or a proper prefix
+        _ => rng.bytes(v.width()) } };
     let dele_of = |d: &Value| -> Vec<u8> {
         let pubk = interp::pk_of_seed(keys.by_name(d["pubk"].as_str().unwrap()).unwrap());
         let m = match v { Proto::Google => midp, Proto::Ietf => midp };
